@@ -1,5 +1,7 @@
 """Shared by C06 and C07: implementation interpreter for the IPSet register machine (`sets_run`), an independent
 interval-set oracle, and history generators."""
+import zlib
+
 from harness import gens
 from harness.wire import Exn, exn_of
 
@@ -37,7 +39,16 @@ def _sarg(regs, a):
     if k == "set":
         return regs[a[1]]
     if k == "iter":
-        return [_elem(x) for x in a[1]]
+        objs = [_elem(x) for x in a[1]]
+        # the same elements handed over as a list, a tuple, a generator or a one-shot iterator (chosen from the content)
+        form = zlib.crc32(repr(a[1]).encode()) % 4
+        if form == 1:
+            return tuple(objs)
+        if form == 2:
+            return (o for o in objs)
+        if form == 3:
+            return iter(objs)
+        return objs
     return _elem(a)
 
 
